@@ -42,6 +42,8 @@ class Ctx:
         self.reached_n = 0
         self.notes: dict[str, Any] = {}
         self.abandon_reason: str | None = None
+        self.ranges: list = []  # enum mode: (lo, hi) of every draw
+        self.collected: list = []  # all-models enumeration: realised items of this path
         self.excluded: set = set()  # signatures of open known findings (counted, not raised)
         self.known_hits: dict[str, int] = {}
 
@@ -65,6 +67,21 @@ class Ctx:
             self.trace.append(d)
             self.tags.append(tag)
             return d
+        if self.mode == "enum":
+            lo_, hi_ = int(lo), int(hi)
+            if hi_ < lo_:
+                raise FuelExhausted("empty-range")
+            if hi_ - lo_ > 64:
+                raise FuelExhausted("range-too-wide-for-enumeration")
+            if self.pos < len(self.script):
+                v = self.script[self.pos]
+            else:
+                v = lo_
+            self.pos += 1
+            self.ranges.append((lo_, hi_))
+            self.trace.append(v)
+            self.tags.append(tag)
+            return v
         if self.mode == "replay":
             if self.pos >= len(self.script):
                 raise ReplayMismatch(f"script exhausted at draw {self.pos} ({tag})")
@@ -129,6 +146,15 @@ class Ctx:
 
     def fail(self, clause: str, detail: Any = None):
         raise OracleFailure(clause, detail)
+
+    def collect(self, item):
+        """all-models enumeration: realise `item` (this forks the path over every value of the
+        symbols it contains - intended) and remember it for the post-exploration comparison"""
+        if self.mode == "sym":
+            from crosshair.core import deep_realize
+
+            item = deep_realize(item)
+        self.collected.append(item)
 
     def note(self, k: str, v: Any):
         self.notes[k] = v
